@@ -20,10 +20,19 @@ def run(ctx):
     prove(ctx, DEPS)
     n = 60 if ctx.quick() else 2000
     cases = [c for c in ic.gen_line_curve(ctx, n) if (len(c["c1"][0]) - 1) * (len(c["c2"][0]) - 1) <= 4]
-    # degree-elevated presentations (the algebraic path must reduce first)
+    cases += ic.gen_curve_curve(ctx, 12 if ctx.quick() else 400, max_deg=2)          # 2-2 pairs certified by the resultant oracle
+    # degree-elevated presentations (the algebraic path must reduce first): every presented size up to 5 nodes for either
+    # curve; the elevated net is rounded to binary64 (moves a simple crossing by rounding amounts only)
     extra = []
-    for c in cases[: len(cases) // 3]:
-        extra.append(dict(c, c1=io.elevate_rows(c["c1"]), kind="elevated"))
+    rng = ctx.rng
+    for c in cases:
+        for _rep in range(2):
+            k1 = rng.randint(0, 5 - len(c["c1"][0]))
+            k2 = rng.randint(0, 5 - len(c["c2"][0]))
+            if k1 + k2 == 0:
+                continue
+            rnd = lambda rows: [[F(float(x)) for x in r] for r in rows]
+            extra.append(dict(c, c1=rnd(io.elevate_rows(c["c1"], k1)), c2=rnd(io.elevate_rows(c["c2"], k2)), kind="elevated %d+%d" % (k1, k2)))
     cases = [c for c in cases + extra if all(F(float(x)) == x for r in c["c1"] + c["c2"] for x in r)]
     # run both strategies and compare the sets (support sweep)
     from common import run_impl_parallel
